@@ -446,6 +446,8 @@ def replay_file(path, quiet=False, exes=None, prop=None):
             kv.update(part_kv)
         kv.update(chk.extra_kv())
         kv.update(rp.get("exec_extra") or {})
+        if os.environ.get("VERIF_VERBOSE"):
+            kv["verbose"] = 1
         if spec.get("reference_config") and "expect" in kv:
             refw = Worker(C.build_engine(eng, spec["reference_config"]))
             try:
@@ -463,7 +465,7 @@ def replay_file(path, quiet=False, exes=None, prop=None):
     ok = cls is not None and cls == rp["expect"]["class"]
     if not quiet:
         C.log("replay %s: status=%s class=%s expected=%s" % (path, r.status, cls, rp["expect"]["class"]))
-        for t in r.trace[-40:]:
+        for t in r.trace[-(400 if os.environ.get("VERIF_VERBOSE") else 40):]:
             C.log("   ", t)
         if r.viol:
             C.log("   ", r.viol[0].get("msg"))
